@@ -39,12 +39,23 @@ def gen_attr_case(rng, i):
     elif r < .26:
         names = names + [11] if rng.random() < .5 else names[:-1] or [0, 1]
         mal = "name-width"
+    # coefficient arrays of different dtypes in one triple (the narrower one first as often as not)
+    col_dtypes = None
+    if mal is None and rng.random() < .3 and len(cols) >= 2:
+        from fractions import Fraction
+        from ..core import coef_json
+        col_dtypes = [gen.choice(rng, ["int64", "float64", "int32", "float32"]) for _ in cols]
+        for k, dt in enumerate(col_dtypes):
+            if dt.startswith("float"):
+                cols[k] = [coef_json(Fraction(int(rng.integers(-7, 8)), 4)) for _ in cols[k]]
+            else:
+                cols[k] = [int(rng.integers(-3, 4)) for _ in cols[k]]
     given = names if rng.random() < .85 or mal else None
     if given is None:
         width = len(expos[0])
         s_names = list(range(width))
     return {"id": i, "kind": "attrs", "names": given, "expos": expos, "cols": cols, "shape": list(shape), "dtype": s["dtype"],
-            "rc": bool(rng.integers(2)), "rn": bool(rng.integers(2)), "mal": mal}
+            "rc": bool(rng.integers(2)), "rn": bool(rng.integers(2)), "mal": mal, "col_dtypes": col_dtypes}
 
 
 def attr_driver(c):
@@ -55,7 +66,11 @@ def attr_driver(c):
 def check_attrs(ctx, c, model):
     tags = ["attrs"] + ([f"malformed:{c['mal']}"] if c["mal"] else [])
     dtype = numpy.dtype(c["dtype"])
-    cols = [numpy.array([exact_to_py(coef_from_json(v), dtype) for v in col], dtype=dtype).reshape(tuple(c["shape"])) for col in c["cols"]]
+    dts = [numpy.dtype(d) for d in c["col_dtypes"]] if c.get("col_dtypes") else [dtype] * len(c["cols"])
+    cols = [numpy.array([exact_to_py(coef_from_json(v), dt) for v in col], dtype=dt).reshape(tuple(c["shape"])) for col, dt in zip(c["cols"], dts)]
+    if c.get("col_dtypes"):
+        tags = tags + ["mixed-dtypes"]
+        ctx.count("attrs.mixed-dtypes")
     names = None if c["names"] is None else tuple(f"q{n}" for n in c["names"])
     ctx.evaluations += 1
     ctx.count(f"attrs.malformed={c['mal']}")
